@@ -10,6 +10,19 @@ BASELINE_OFF = ("cd /repo && env -u CNES_PANDORA_VERIF /venv/bin/python -m pytes
 
 # id -> (technique, level text, level note, design ref)
 CLAIMED = {
+    "C09": (
+        "Metamorphic relations between runs of the real code (nested intervals, grids vs. scalar), plus range invariant observed per step",
+        "Exploration: (nested) the volume computed for [a,b] must equal, bit for bit, the slice of the volume for a "
+        "larger [A,B], after matching cost and after cbca; (grids) per-pixel grids must give the scalar run's costs "
+        "inside each pixel's interval and NaN outside, constant grids must reproduce the scalar run on every product "
+        "of a whole legal pipeline; (range) harness-side wrappers observe every step of generated legal pipelines: "
+        "valid disparities inside their own interval right after disparity / refinement, inside the global interval at "
+        "the end (left and right), disparity_interval equal to the interval searched.",
+        "Trusted: harness builders only (both sides are the real code). Known finding "
+        "C09/refinement-of-off-sample-disparity-leaves-interval (bounded by half a sample) is excluded and counted. "
+        "cbca with non-constant grids is deliberately not compared with the scalar run.",
+        "DESIGN.md §5 C09",
+    ),
     "C08": (
         "Metamorphic relation between two runs of the real pipeline (mirrored stereo problem), exact comparison",
         "Exploration: generated pairs, intervals and legal pipelines with a validation step (filling, confidence "
